@@ -48,15 +48,58 @@ def model_check(scratch: Path, tier: str, capit=0):
     return res, b
 
 
+INS_MODEL_CFG = """SPECIFICATION Spec
+CONSTANTS
+  NInit = 3
+  NLive = 2
+  DrawConstant = {dc}
+  Iid = {iid}
+  MinIt = {minit}
+  MaxIt = 3
+  NCrit = 2
+  StopAny = {any}
+  MaxStops = 1
+CONSTRAINT Bounded
+INVARIANT Columns
+INVARIANT Counts
+INVARIANT Levels
+INVARIANT DiskLevels
+INVARIANT Finalised
+PROPERTY StopRule
+PROPERTY NoEarlyFinalise
+PROPERTY KeepsGoing
+PROPERTY Idempotent
+CHECK_DEADLOCK FALSE
+"""
+
+
+def ins_model_check(scratch: Path, tier: str):
+    states = trans = 0
+    n = 0
+    for dc in ("FALSE", "TRUE"):
+        for iid in ("TRUE", "FALSE"):
+            for any_ in ("TRUE", "FALSE"):
+                for minit in ((0, 2) if tier != "quick" else (1,)):
+                    cfg = scratch / f"ins_model_{n}.cfg"
+                    cfg.write_text(INS_MODEL_CFG.format(dc=dc, iid=iid, any=any_, minit=minit))
+                    res = run_tlc("ImportanceSampler", str(cfg), metadir=scratch / f"m_ins_{n}", workers=4,
+                                  timeout=1200)
+                    require_ok(res, f"ImportanceSampler.tla dc={dc} iid={iid} any={any_} minit={minit}")
+                    states += res.distinct
+                    trans += res.generated
+                    n += 1
+    return states, trans, n
+
+
 def run_property(prop: str, tier: str, specs, *, level="model_checking", crash_is_violation=False,
-                 extra_cov=None, also=(), sig_of=None, capit=0, note=""):
+                 extra_cov=None, also=(), sig_of=None, capit=0, note="", ins_specs=()):
     """Run the corpus, validate, report P-failures of `prop` (and of `also`)."""
     seed = seed_from_env()
     v = Verdict(prop, tier, seed, level)
     with Scratch(prop.lower() + "-") as scratch:
         res, bounds = model_check(scratch, tier, capit)
         v.note(f"NestedSampler.tla: {res.distinct} states, {res.generated} transitions ({res.wall_s:.0f}s)")
-        hs = run_corpus(specs, scratch / "runs")
+        hs = run_corpus(specs, scratch / "runs") if specs else []
         crashed = [h for h in hs if h["codes"][-1] not in (0,)]
         for h in crashed:
             err = ""
@@ -70,10 +113,51 @@ def run_property(prop: str, tier: str, specs, *, level="model_checking", crash_i
                 v.violation("run_failed", msg, {"spec": h["spec"], "codes": h["codes"], "error": err})
             else:
                 v.mismatch("run did not complete: " + msg)
-        records, stats, packed = validate_standard(hs, scratch)
+        ins_stats = None
+        if ins_specs:
+            from .nsruns import validate_ins
+
+            ist, itr, ncfg = ins_model_check(scratch, tier)
+            v.note(f"ImportanceSampler.tla: {ncfg} configurations, {ist} states, {itr} transitions")
+            ihs = run_corpus(list(ins_specs), scratch / "ins_runs")
+            icrashed = [h for h in ihs if h["codes"][-1] != 0]
+            for h in icrashed:
+                err = ""
+                for f in h["events"]:
+                    try:
+                        err = open(f + ".err").read().strip().splitlines()[-1]
+                    except (OSError, IndexError):
+                        pass
+                msg = f"INS history {json.dumps(h['spec'])[:300]} ended with exit codes {h['codes']}: {err}"
+                if crash_is_violation:
+                    v.violation("run_failed", msg, {"spec": h["spec"], "codes": h["codes"], "error": err})
+                else:
+                    v.mismatch("run did not complete: " + msg)
+            irecords, ins_stats, ipacked = validate_ins(ihs, scratch)
+            ins_stats.update(model_states=ist, model_transitions=itr, histories=len(ihs),
+                             histories_not_completed=len(icrashed),
+                             processes=sum(len(h["codes"]) for h in ihs))
+            for r in irecords:
+                if r["k"] == "M":
+                    v.mismatch(f"INS history {r['h']} event {r['l']}: {r['c']}")
+                elif r["p"] in {prop, *also}:
+                    sig = sig_of(r) if sig_of else "ins:" + r["c"].split(":")[0]
+                    h = ihs[r["h"]]
+                    v.violation(sig, f"{r['p']} clause '{r['c']}' fails at event {r['l']} "
+                                f"({r['ev']['ev'] if r['ev'] else '?'}) of INS history {r['h']} "
+                                f"(model={h['spec']['model']} seed={h['spec']['seed']} kwargs={json.dumps(h['spec']['kwargs'])[:200]})",
+                                {"spec": h["spec"], "codes": h["codes"], "event_index": r["l"], "clause": r["c"],
+                                 "event": r["ev"]})
+        if specs:
+            records, stats, packed = validate_standard(hs, scratch)
+        else:
+            records, stats, packed = [], {k: 0 for k in ("states", "transitions", "events", "iterations",
+                                                         "populations", "checkpoints", "resumes",
+                                                         "tie_iterations")}, [[]]
+            stats["iterations"] = ins_stats["iterations"] if ins_stats else 0
         if stats["iterations"] == 0:
             raise MachineryError("no run of the corpus produced an iteration: " + (crashed[0]["dir"] if crashed else ""))
-        all_failed = len(crashed) == len(hs) and all(h["codes"][-1] == 3 for h in hs)
+        all_failed = bool(hs) and len(crashed) == len(hs) and all(h["codes"][-1] == 3 for h in hs)
         props = {prop, *also}
         nP = 0
         for r in records:
@@ -93,18 +177,23 @@ def run_property(prop: str, tier: str, specs, *, level="model_checking", crash_i
             # cannot happen on a tree where the corpus completes: every run raised an exception
             v.violation("all_runs_failed", "every run of the corpus raised an exception before completing",
                         {"specs": [h["spec"] for h in hs[:3]]})
-        sample_h = packed[0]
+        sample_h = packed[0] if packed else []
         it_ev = [e for e in sample_h if e["ev"] == "iter"]
+        if ins_stats:
+            iit = [e for e in ipacked[0] if e["ev"] == "ins_iter"]
         v.coverage = {
-            "states": res.distinct + stats["states"],
-            "transitions": res.generated + stats["transitions"],
-            "traces_validated_against_impl": len(hs),
+            "states": res.distinct + stats["states"] + (ins_stats["states"] + ins_stats["model_states"] if ins_stats else 0),
+            "transitions": res.generated + stats["transitions"]
+            + (ins_stats["transitions"] + ins_stats["model_transitions"] if ins_stats else 0),
+            "traces_validated_against_impl": len(hs) + (ins_stats["histories"] if ins_stats else 0),
             "model_states": res.distinct, "model_bounds": bounds,
             "histories": len(hs), "processes": sum(len(h["codes"]) for h in hs),
             "histories_not_completed": len(crashed),
             **{k: stats[k] for k in ("events", "iterations", "populations", "checkpoints", "resumes",
                                      "tie_iterations")},
-            "samples": [{"spec": hs[0]["spec"], "first_iteration_event": it_ev[0] if it_ev else None}],
+            "samples": ([{"spec": hs[0]["spec"], "first_iteration_event": it_ev[0] if it_ev else None}] if hs else [])
+            + ([{"ins_spec": ihs[0]["spec"], "first_ins_iteration_event": iit[0] if iit else None}] if ins_stats else []),
+            "importance_sampler": ins_stats,
             "rule": "exhaustive TLC on NestedSampler.tla (design configuration) + real observed runs; every "
                     "event of every history is a step of TraceNestedSampler.tla and the property's clauses are "
                     "evaluated by TLC on each logged state. " + note,
